@@ -439,3 +439,6 @@ func Ite(c, a, b bool) bool {
 	}
 	return b
 }
+
+// SymbolicAddrs makes pointer-to-integer conversions yield arbitrary (symbolic) addresses (engine only).
+func SymbolicAddrs(on bool) {}
